@@ -152,6 +152,11 @@ def correspondence(ctx):
         # carriage returns are characters like any other
         {'src': 'print("progress 1", end="\\r")\nprint("progress 2", end="\\r\\n")\ns = "a\\rb"\nprint(s, len(s))\n', 'inputs': [], 'calls': []},
         {'src': 'def bar(n):\n    print("#" * n, end="\\r")\n    return "x\\r\\ny"\n', 'inputs': [], 'calls': [['bar', ['3']], ['bar', ['1']]]},
+        # a returned object with a field called `value`, looked at through what call() hands back
+        {'src': 'class Coin:\n    def __init__(self, value, unit):\n        self.value = value\n        self.unit = unit\n    def __repr__(self):\n'
+                '        return "Coin(%r, %r)" % (self.value, self.unit)\n    def __str__(self):\n        return "%s %s" % (self.value, self.unit)\n'
+                'def make(n):\n    return Coin(n, "cent")\ndef purse():\n    return [Coin(1, "cent"), Coin(5, "cent")]\n',
+         'inputs': [], 'calls': [['make', ['25']], ['purse', []]]},
         # leading blank space belongs to the line
         {'src': 'for i in range(3):\n    print(" " * (3 - i) + "*" * (2 * i + 1))\nprint("\\titem\\t3")\ndef receipt():\n    print("  total:  5")\n',
          'inputs': [], 'calls': [['receipt', []]]},
